@@ -94,7 +94,7 @@ def first_diff(a, b):
 
 class C19(Machine):
     ID = "C19"
-    FAMILY_WEIGHTS = {"sparse": 4, "dense": 1, "canal": 3, "modular": 3, "maa": 2}
+    FAMILY_WEIGHTS = {"sparse": 4, "dense": 1, "canal": 3, "modular": 3, "maa": 2, "cascade": 2}
     NMAX = {"quick": 6, "thorough": 7}
     FMTS = ("bnet", "aeon", "api")
 
